@@ -8,6 +8,7 @@ import (
 	"fmt"
 	"os"
 	"sort"
+	"strings"
 	"unicode"
 
 	evalfilter "github.com/skx/evalfilter/v2"
@@ -125,6 +126,33 @@ func inlineLimit() int {
 	return best
 }
 
+// maxParenDepth: the deepest nesting of parentheses around a literal that
+// the parser accepts, searched up to 20000 (0 = no limit found below that).
+func maxParenDepth() int {
+	ok := func(d int) bool {
+		src := strings.Repeat("(", d) + "1" + strings.Repeat(")", d) + ";"
+		p := parser.New(lexer.New(src))
+		_, err := p.Parse()
+		return err == nil
+	}
+	if ok(20000) {
+		return 0
+	}
+	lo, hi := 1, 20000 // ok(lo), !ok(hi)
+	if !ok(lo) {
+		return -1
+	}
+	for hi-lo > 1 {
+		mid := (lo + hi) / 2
+		if ok(mid) {
+			lo = mid
+		} else {
+			hi = mid
+		}
+	}
+	return lo
+}
+
 func dumpTables() {
 	out := map[string]interface{}{}
 
@@ -190,6 +218,7 @@ func dumpTables() {
 	}
 	out["slash_context"] = sc
 	out["inline_limit"] = inlineLimit()
+	out["max_paren_depth"] = maxParenDepth()
 	out["unicode_letter"] = ranges(unicode.Letter)
 	out["unicode_digit"] = ranges(unicode.Digit)
 
